@@ -1364,8 +1364,8 @@ class timed_window(Stream):
             metadata, self.metadata_buffer = self.metadata_buffer, []
             m = [m for ml in metadata for m in ml]
             self.last = self._emit(L, m)
-            self._release_refs(m)
             yield self.last
+            self._release_refs(m)
             yield gen.sleep(self.interval)
 
 
@@ -1466,13 +1466,17 @@ class timed_window_unique(Stream):
             # remove key if already present so that emitted value
             # will reflect elements' actual relative ordering
             self._buffer.pop(y, None)
-            self._metadata_buffer.pop(y, None)
+            replaced = self._metadata_buffer.pop(y, None)
+            if replaced:
+                self._release_refs(replaced)
             self._buffer[y] = x
             self._metadata_buffer[y] = metadata
         else:  # self.keep == "first"
             if y not in self._buffer:
                 self._buffer[y] = x
                 self._metadata_buffer[y] = metadata
+            elif metadata:
+                self._release_refs(metadata)
         return self.last
 
     @gen.coroutine
@@ -1483,8 +1487,8 @@ class timed_window_unique(Stream):
             # TODO: figure out why metadata_result is handled differently here...
             m = [m for ml in metadata_result for m in ml]
             self.last = self._emit(result, m)
-            self._release_refs(m)
             yield self.last
+            self._release_refs(m)
             yield gen.sleep(self.interval)
 
 
